@@ -85,6 +85,7 @@ type Case struct {
 	AbortAt    int      `json:"abort_at"`   // abort + restart after that many deliveries (-1: never)
 	Gate       int      `json:"gate"`       // 0: none; -1: last chunk; k > 0: chunk (k-1) mod n is pinned in flight (blocking reader) while another caller restores all other chunks
 	GateDup    bool     `json:"gate_dup"`   // a duplicate of the pinned chunk is submitted while the original is in flight
+	Boundary   string   `json:"boundary,omitempty"` // how the chunk size was derived (size == recomputed estimate of a chunk, +-1); informational
 	FullAbort  bool     `json:"full_abort"` // restarts also AbortMultipartInsert + StartMultipartInsert (else only the restorer is restarted and the multipart insert continues)
 	Corrupt    string   `json:"corrupt"`    // "" flip trunc swap digest other other-digest empty
 	CorruptIdx int      `json:"corrupt_idx"`
@@ -290,6 +291,7 @@ func createOnce(s *source, size uint64, threads uint16) (*ckpt, error) {
 // ---------- independent chunk decoder ----------
 
 type pnode struct {
+	elen  int // length of the proof entry (tag + serialized node) for full entries
 	bits  int
 	label []byte
 	kind  byte // 0 nil, 1 leaf, 2 internal, 3 hash
@@ -400,6 +402,7 @@ func parseProof(items [][]byte, pos *int, depth int) (*pnode, error) {
 				return nil, fmt.Errorf("bad leaf entry")
 			}
 			n.depth = depth
+			n.elen = len(e)
 			return n, nil
 		}
 		if b[0] != 0x01 || len(b) < 4 {
@@ -411,7 +414,7 @@ func parseProof(items [][]byte, pos *int, depth int) (*pnode, error) {
 			return nil, fmt.Errorf("bad label")
 		}
 		rest := b[3+ll:]
-		n := &pnode{kind: 2, depth: depth, bits: bits, label: append([]byte{}, b[3:3+ll]...)}
+		n := &pnode{kind: 2, depth: depth, bits: bits, label: append([]byte{}, b[3:3+ll]...), elen: len(e)}
 		if rest[0] == 0x02 {
 			if len(rest) != 1 {
 				return nil, fmt.Errorf("trailing bytes")
@@ -548,6 +551,7 @@ func decodeChunk(b []byte) ([]kv, int, error) {
 type finding struct{ key, what string }
 
 type result struct {
+	ests     []uint64 // sequential chunker: recomputed estimate of every chunk
 	finds    []finding
 	viol     []string
 	stats    []string
@@ -646,7 +650,7 @@ func getCkpt(s *source, size uint64, threads uint16, res *result) (*ckpt, error)
 }
 
 // checkChunks: (b) the chunks carry exactly the contents.
-func checkChunks(s *source, c *ckpt, threads uint16, res *result) {
+func checkChunks(s *source, c *ckpt, size uint64, threads uint16, res *result) {
 	seen := map[string][]byte{}
 	var fresh []kv // keys in order of first appearance
 	res.nchunks = len(c.chunks)
@@ -662,6 +666,8 @@ func checkChunks(s *source, c *ckpt, threads uint16, res *result) {
 		}
 		var keys [][]byte
 		nfresh := 0
+		run := map[string]bool{}
+		lastFresh := ""
 		for j, e := range es {
 			keys = append(keys, e.k)
 			if j > 0 && bytes.Compare(es[j-1].k, e.k) >= 0 {
@@ -676,8 +682,24 @@ func checkChunks(s *source, c *ckpt, threads uint16, res *result) {
 			seen[string(e.k)] = e.v
 			fresh = append(fresh, e)
 			nfresh++
+			run[string(e.k)] = true
+			lastFresh = string(e.k)
 		}
 		res.chunkKey = append(res.chunkKey, keys)
+		if threads == 0 && nfresh > 0 {
+			// the boundary rule of the sequential chunker, judged on the implementation:
+			// a chunk is closed by the first key that lifts the estimate to the chunk
+			// size (only the last chunk may stay below), never later
+			root, _ := decodeTree(b)
+			est, before := seqEstimate(root, run, lastFresh)
+			res.ests = append(res.ests, est)
+			if est < size && i != len(c.chunks)-1 {
+				res.v("sequential-chunk-closed-below-chunk-size chunk %d: estimate %d < %d", i, est, size)
+			}
+			if nfresh >= 2 && before >= size {
+				res.v("sequential-chunk-overshoots chunk %d: estimate before its last key %d >= %d", i, before, size)
+			}
+		}
 		if len(s.es) > 0 && len(es) == 0 {
 			res.v("empty-chunk chunk %d of %d", i, len(c.chunks))
 		}
@@ -702,6 +724,58 @@ func checkChunks(s *source, c *ckpt, threads uint16, res *result) {
 			res.v("chunks-do-not-cover-contents (%d of %d keys)", len(fresh), len(s.es))
 		}
 	}
+}
+
+// seqEstimate recomputes, from a decoded chunk of the SEQUENTIAL chunker, the
+// proof builder's size estimate when the chunk was closed (every included
+// node: 1 + len(serialized) = the length of its proof entry; a leaf held
+// inline by an internal node is counted again when the iterator visited it,
+// i.e. when its key belongs to the chunk's run) and the estimate the builder
+// had before the last key of the run was visited.
+func seqEstimate(root *pnode, run map[string]bool, last string) (est, before uint64) {
+	var walk func(n *pnode) (all, others int)
+	walk = func(n *pnode) (int, int) {
+		if n == nil {
+			return 0, 0
+		}
+		switch n.kind {
+		case 1:
+			if !run[string(n.k)] {
+				return 0, 0
+			}
+			est += uint64(n.elen)
+			if string(n.k) != last {
+				before += uint64(n.elen)
+				return 1, 1
+			}
+			return 1, 0
+		case 2:
+			all, others := 0, 0
+			if n.lf != nil && run[string(n.lf.k)] {
+				dbl := uint64(8 + len(n.lf.k) + len(n.lf.v))
+				est += dbl
+				all++
+				if string(n.lf.k) != last {
+					before += dbl
+					others++
+				}
+			}
+			a1, o1 := walk(n.l)
+			a2, o2 := walk(n.r)
+			all, others = all+a1+a2, others+o1+o2
+			// the node is included iff some key of the run lies below it
+			if all > 0 {
+				est += uint64(n.elen)
+			}
+			if others > 0 {
+				before += uint64(n.elen)
+			}
+			return all, others
+		}
+		return 0, 0
+	}
+	walk(root)
+	return
 }
 
 // gatedReader announces its first Read and then blocks until released: the
@@ -743,7 +817,7 @@ func runCase(c Case) (res *result) {
 		res.v("create-checkpoint-failed: %v", err)
 		return
 	}
-	checkChunks(s, cp, c.Threads, res)
+	checkChunks(s, cp, c.ChunkSize, c.Threads, res)
 	n := len(cp.chunks)
 	if n == 0 {
 		return
@@ -1320,6 +1394,7 @@ func main() {
 	perTree := flag.Int("per-tree", 4, "cases (chunk size, threads, restore schedule) per tree")
 	maxN := flag.Int("maxn", 1500, "largest tree")
 	kmax := flag.Int("kmax", 160, "largest tree evaluated by the Coq model")
+	nboundary := flag.Int("boundary", 4, "number of sequential checkpoints from which boundary chunk sizes (estimate, +-1) are derived (12 cases each)")
 	kwork := flag.Int("kwork", 300000, "bound on chunks x key bytes for a case to be evaluated by the Coq model")
 	kbuild := flag.Int("kbuild", 60, "largest tree the model builds itself by insert (larger ones are rebuilt from the dumped shape)")
 	stackBudget := flag.Int("stack-budget", 1500000, "keys*chunks*depth^2 bound for evaluating the stack port")
@@ -1371,9 +1446,40 @@ func main() {
 	seen := map[string]bool{}
 	violSeen := map[string]bool{}
 	findSeen := map[string]bool{}
-	for _, c := range cases {
+	boundaryLeft := *nboundary
+	for ci := 0; ci < len(cases); ci++ {
+		c := cases[ci]
 		res := runCase(c)
 		sum.Evaluations++
+		if c.Boundary != "" {
+			sum.Count("boundary", c.Boundary)
+		}
+		// (3) chunk sizes at the exact boundary values of the estimate: from the
+		// recomputed estimates of a sequential checkpoint derive sizes est, est-1,
+		// est+1 of its first and of a middle chunk, for both chunkers
+		if *replay == "" && c.Boundary == "" && c.Threads == 0 && len(res.ests) >= 2 && len(res.viol) == 0 && boundaryLeft > 0 {
+			boundaryLeft--
+			for _, i := range []int{0, len(res.ests) / 2} {
+				for _, d := range []int{-1, 0, 1} {
+					for _, th := range []uint16{0, uint16(2 + (ci+i)%7)} {
+						sz := int64(res.ests[i]) + int64(d)
+						if sz < 1 {
+							continue
+						}
+						b := c
+						b.ChunkSize, b.Threads = uint64(sz), th
+						b.Corrupt, b.Gate, b.GateDup, b.AbortAt, b.Dups, b.Goroutines = "", 0, false, -1, 0, 1
+						b.Boundary = fmt.Sprintf("estimate-of-chunk%+d", d)
+						if i > 0 {
+							b.Boundary = "middle-" + b.Boundary
+						} else {
+							b.Boundary = "first-" + b.Boundary
+						}
+						cases = append(cases, b)
+					}
+				}
+			}
+		}
 		s, _ := getSource(c.Tree, c.Src)
 		nkeys := 0
 		if s != nil {
